@@ -114,6 +114,30 @@ def readLinear (ns nc T L hasU : Nat) (a : Array F) (off0 : Nat) : LinData ns nc
     if hasU == 1 then some ((List.range T).map fun t => vecAt a (offU + t*nc) nc) else none
   ⟨vecAt a off0 ns, Sys.linear A B c, ⟨T, Q, p⟩, ub, offU + (if hasU == 1 then T*nc else 0)⟩
 
+/-- the call as the user spells it: layout  x0 | per system slot l<max(L,1): A B [c if hasC] | Q once or T times |
+p once or T times | (hasU) per t<T: ubar.  `Q`/`p` given once are tiled by the MODEL (`Prob.ofArgs`), a missing `c1` is the
+`None` branch of `Sys.linearOpt`, a missing `u_traj` the `None` branch of `nomOf`. -/
+def readLinearX (ns nc T L hasU qonce ponce hasC : Nat) (a : Array F) (off0 : Nat) : LinData ns nc :=
+  let slots := if L == 0 then 1 else L
+  let szS := ns*ns + ns*nc + (if hasC == 1 then ns else 0)
+  let offS := off0 + ns
+  let idx := fun (t : Nat) => if L == 0 then 0 else t
+  let A := fun t => matAt a (if idx t < slots then offS + idx t * szS else a.size) ns ns
+  let B := fun t => matAt a (if idx t < slots then offS + idx t * szS + ns*ns else a.size) ns nc
+  let c : Option (Nat → Vec F ns) :=
+    if hasC == 1 then some fun t => vecAt a (if idx t < slots then offS + idx t * szS + ns*ns + ns*nc else a.size) ns else none
+  let n := ns + nc
+  let offQ := offS + slots * szS
+  let nQ := if qonce == 1 then 1 else T
+  let Q : PerStep (Mat F n n) := if qonce == 1 then .once (matAt a offQ n n) else .each fun t => matAt a (offQ + t * (n*n)) n n
+  let offP := offQ + nQ * (n*n)
+  let nP := if ponce == 1 then 1 else T
+  let p : PerStep (Vec F n) := if ponce == 1 then .once (vecAt a offP n) else .each fun t => vecAt a (offP + t * n) n
+  let offU := offP + nP * n
+  let ub : Option (List (Vec F nc)) :=
+    if hasU == 1 then some ((List.range T).map fun t => vecAt a (offU + t*nc) nc) else none
+  ⟨vecAt a off0 ns, Sys.linearOpt A B c, Prob.ofArgs T Q p, ub, offU + (if hasU == 1 then T*nc else 0)⟩
+
 /-- layout: x0 | A B c a phi W R | per t<T: Q p | (hasU) per t<T: ubar -/
 def readSin (ns nc T hasU : Nat) (a : Array F) (off0 : Nat) : LinData ns nc :=
   let o1 := off0 + ns
@@ -152,6 +176,37 @@ def opsC14 : List (String × Handler) := [
         if d.used ≠ a.size then throw s!"arity:{a.size}≠{d.used}"
         let o := lqr (cholSolver ns nc) d.S d.P dt d.x0 (nomOf d.ubar)
         return fmt (← fmtOut o true)
+      | _ => throw "arity"),
+  -- c14.lqrx ns nc T dt L hasU qonce ponce hasC nums…  → as c14.lqr, arguments as the user gives them (tiling, None branches in the model)
+  ("c14.lqrx", fun ts => do
+      match ts with
+      | ns :: nc :: T :: dt :: L :: hasU :: qonce :: ponce :: hasC :: rest =>
+        let ns ← nat ns; let nc ← nat nc; let T ← nat T; let dt ← nat dt; let L ← nat L; let hasU ← nat hasU
+        let qonce ← nat qonce; let ponce ← nat ponce; let hasC ← nat hasC
+        let a := (← nums rest).toArray
+        let d := readLinearX ns nc T L hasU qonce ponce hasC a 0
+        if d.used ≠ a.size then throw s!"arity:{a.size}≠{d.used}"
+        let o := lqr (cholSolver ns nc) d.S d.P dt d.x0 (nomOf d.ubar)
+        return fmt (← fmtOut o true)
+      | _ => throw "arity"),
+  -- c14.mpcx kind ns nc T L hasU given steps patience pc0 qonce ponce hasC | decreasing tol | system nums…
+  --   given = 0: `stepper=None` (the model's `Stepper.default`); `MPC.__init__` = the model's `mpcInit`
+  ("c14.mpcx", fun ts => do
+      match ts with
+      | kind :: ns :: nc :: T :: L :: hasU :: given :: steps :: pat :: pc0 :: qonce :: ponce :: hasC :: rest =>
+        let kind ← nat kind; let ns ← nat ns; let nc ← nat nc; let T ← nat T; let L ← nat L; let hasU ← nat hasU
+        let given ← nat given; let steps ← int steps; let pat ← nat pat; let pc0 ← nat pc0
+        let qonce ← nat qonce; let ponce ← nat ponce; let hasC ← nat hasC
+        let a := (← nums rest).toArray
+        let d := if kind == 0 then readLinearX ns nc T L hasU qonce ponce hasC a 2 else readSin ns nc T hasU a 2
+        if d.used ≠ a.size then throw s!"arity:{a.size}≠{d.used}"
+        let arg : Option (Stepper F) :=
+          if given == 1 then some { (Stepper.new steps pat (aget a 0) (aget a 1) : Stepper F) with patienceCount := pc0 } else none
+        let st := mpcInit arg
+        let fuel := st.maxSteps.toNat + 2
+        let r := mpc (cholSolver ns nc) d.S d.P 1 d.x0 fuel st d.ubar
+        let body ← fmtOut r.1 false
+        return s!"{r.2.2} {r.2.1.patienceCount} {r.2.1.maxSteps} " ++ fmt body
       | _ => throw "arity"),
   -- c14.nls ns nc T hasU nums…  (sin system) → same reply
   ("c14.nls", fun ts => do
